@@ -26,14 +26,19 @@ w('MC_NegRelay', inv="TypeOK PerNodeAdmission", AdvKinds='{"own"}', RecogAInit='
 w('MC_NegNoFilter', Filter='FALSE', inv="TypeOK AtMostOnce", RecogAInit='{FALSE}', MaxAdvDials=0, MaxAdv=0, MaxTicks=1, **static)
 w('MC_NegNoSecondCheck', SecondCheck='FALSE', inv="TypeOK NothingAfterCancel", RecogAInit='{FALSE}', MaxAdvDials=0, MaxAdv=0, CancelHandlers='{"h1"}', **static)
 # ---- positive configurations
-w('MC_Quick_Admit', RecogAInit='{TRUE}', AdvKinds='{"own"}', MaxDials=0, MaxAdvDials=2)
-w('MC_Quick_Deliver', RecogAInit='{TRUE}', MaxTicks=1, CancelMsgs='{1}', CancelHandlers='{"h1"}', AdvKinds='{"impostor", "replay"}', **static)
+# quick tier: small enough for a loaded machine (10^4 states each)
+w('MC_Quick_Admit', RecogAInit='{TRUE}', AdvKinds='{"own"}', MaxDials=0, MaxAdvDials=2, MaxCalls=2)
+w('MC_Quick_Deliver', RecogAInit='{TRUE}', MaxTicks=1, CancelHandlers='{"h1"}', AdvKinds='{"impostor"}', **static)
+w('MC_Quick_Retx', RecogAInit='{TRUE}', MaxTicks=1, CancelMsgs='{1}', AdvKinds='{"replay"}', **static)
+# thorough tier
+w('MC_AdmitRelay', RecogAInit='{TRUE}', AdvKinds='{"own"}', MaxDials=0, MaxAdvDials=2)
+w('MC_DeliverCancel', RecogAInit='{TRUE}', MaxTicks=1, CancelMsgs='{1}', CancelHandlers='{"h1"}', AdvKinds='{"impostor", "replay"}', **static)
 w('MC_Live', spec='LSpec', inv='TypeOK AtMostOnce', props='HandlerProgress EndToEnd SentReachesChannel', RecogAInit='{FALSE}', MaxAdvDials=0, MaxAdv=0,
   Handlers='{"h1", "h2"}', CancelHandlers='{"h2"}', MaxTicks=1, **static)
 w('MC_Admit')
 w('MC_Deliver', MaxDrops=1, MaxDials=2, CancelHandlers='{"h1"}', MaxTicks=1, CancelMsgs='{1}', AdvKinds='{"own", "impostor", "replay"}', **static)
 w('MC_Two', MaxSend=2, MaxTicks=2, MaxRetx=3, RecogAInit='{FALSE}', MaxAdvDials=0, MaxAdv=0, CancelMsgs='{2}', CancelHandlers='{"h1"}', **static)
-w('MC_TwoHandlers', MaxTicks=1, RecogAInit='{FALSE}', MaxAdvDials=0, MaxAdv=0, CancelMsgs='{1}', Handlers='{"h1", "h2"}', CancelHandlers='{"h2"}', **static)
+w('MC_TwoHandlers', MaxTicks=1, RecogAInit='{TRUE}', AdvKinds='{"replay"}', CancelMsgs='{1}', Handlers='{"h1", "h2"}', CancelHandlers='{"h2"}', **static)
 w('MC_Mitm', HsBudget=1, Nonces='{1, 2}', RecogAInit='{TRUE}', AdvKinds='{"own"}', MaxTicks=1, **static)
 w('MC_Unreduced', Reduce='FALSE', RecogAInit='{TRUE}', MaxTicks=1, CancelMsgs='{1}', CancelHandlers='{"h1"}', AdvKinds='{"impostor", "replay"}', **static)
 w('MC_NegQueueFull', spec='LSpec', inv='TypeOK', props='EndToEnd', RecogAInit='{FALSE}', MaxAdvDials=0, MaxAdv=0, MaxSend=2, MaxRetx=3,
